@@ -370,6 +370,21 @@ func checkCase(r *kit.Run, d *Data) {
 		if string(outs[0]) != string(outs[optInvalid]) {
 			skipped["what IncludeInvalidPolygons adds to area relations"]++
 		}
+		// the option only ever ADDS polygons that would otherwise be left out: every feature
+		// of the output without it is in the output with it, unchanged
+		fa, _ := canonical(outs[0])
+		fb, _ := canonical(outs[optInvalid])
+		with := map[string]bool{}
+		for _, f := range featuresOf(fb) {
+			with[marshalCanon(f)] = true
+		}
+		for _, f := range featuresOf(fa) {
+			if k := marshalCanon(f); !with[k] {
+				viol(optInvalid, "option-differential/IncludeInvalidPolygons-changes-a-valid-feature",
+					fmt.Sprintf("a feature of the output without the option is missing from (or different in) the output with it: %s", k))
+				break
+			}
+		}
 	}
 
 	if r.WantSample() {
